@@ -66,4 +66,9 @@ F53 annotations of functools.wraps wrappers are resolved
 F55 takes loops into account
 F56 also falls back when unpacking a value raises
 F57 reads methods and nested functions whose source has lines indented less
+F58 an annotation set to a value at run time
+F59 replacing an annotation also replaces what evaluated
+F60 copes with source files that changed after import
+F61 results of the algebra get provenance lists of their own
+F62 drops the provenance of parameters it takes away
 LIST
